@@ -111,18 +111,22 @@ def prop_readings(g):
 
 
 def split_keyword_segments(g):
-    """F21: the implementation reads `kw/rest` as the keyword followed by the absolute channel name `/rest`."""
+    """F21: the implementation reads `kw/rest` as the keyword followed by the absolute channel name `/rest` wherever the
+    keyword is acceptable: every way of cutting some of the keyword-segment channel names of g (none cut excluded)."""
+    import itertools
     import re
     from harness.lex import PROP_KEYWORDS
-    out, changed = [], False
-    for c, s in g:
+    cut = {}
+    for i, (c, s) in enumerate(g):
         m = re.match(r'(%s)(/.*)$' % '|'.join(PROP_KEYWORDS), s)
         if c == 'CHAN' and m:
-            out += [['KW', m.group(1)], ['CHAN', m.group(2)]]
-            changed = True
-        else:
-            out.append([c, s])
-    return out if changed else None
+            cut[i] = [['KW', m.group(1)], ['CHAN', m.group(2)]]
+    for k in range(1, len(cut) + 1):
+        for sub in itertools.combinations(sorted(cut), k):
+            out = []
+            for i, t in enumerate(g):
+                out += cut[i] if i in sub else [list(t)]
+            yield out
 
 
 def lex_prop_events(rep, thorough, new_ids, byid):
@@ -157,8 +161,7 @@ def lex_prop_events(rep, thorough, new_ids, byid):
         else:
             kind, exp = 'reject', {'cls': 'None'}
             nrej += 1
-            sp = split_keyword_segments(g) if g is not None else None
-            if sp is not None and any(r in lang for r in prop_readings(sp)):
+            if g is not None and any(r in lang for sp in split_keyword_segments(g) for r in prop_readings(sp)):
                 f21.add(text)
         out, obj = call_parser('property', text, 'pkg')
         eid, sid = new_ids()
